@@ -277,10 +277,23 @@ def wrappers(inner_name, mk_inner, quick):
   # normalizing: order preserving
   out.append(('normalizing', lambda: normalizing_experimenter.NormalizingExperimenter(mk_inner(), num_normalization_samples=10), 'order', True))
 
-  # hypercube: evaluates the inner objective at the un-scaled point (linear DOUBLE parameters only here)
-  if all(pc.type == vz.ParameterType.DOUBLE and pc.scale_type in (None, vz.ScaleType.LINEAR) for pc in params):
+  # hypercube: evaluates the inner objective at the un-scaled point; a numeric parameter with finitely many values gets the one
+  # nearest to the un-scaled coordinate (points exactly half way between two values are not judged)
+  numeric = (vz.ParameterType.DOUBLE, vz.ParameterType.INTEGER, vz.ParameterType.DISCRETE)
+  if not inner_ps.search_space.is_conditional and all(pc.type in numeric and pc.scale_type in (None, vz.ScaleType.LINEAR) for pc in params):
     def rel_h(point, got, t):
-      mapped = {pc.name: pc.bounds[0] + point['h%d' % i] * (pc.bounds[1] - pc.bounds[0]) for i, pc in enumerate(params)}
+      mapped = {}
+      for i, pc in enumerate(params):
+        h = point['h%d' % i]
+        if pc.type == vz.ParameterType.DOUBLE:
+          mapped[pc.name] = pc.bounds[0] + h * (pc.bounds[1] - pc.bounds[0])
+          continue
+        vals = list(range(pc.bounds[0], pc.bounds[1] + 1)) if pc.type == vz.ParameterType.INTEGER else sorted(pc.feasible_values)
+        x = vals[0] + h * (vals[-1] - vals[0])
+        d = sorted((abs(v - x), v) for v in vals)
+        if len(d) > 1 and math.isclose(d[0][0], d[1][0], rel_tol=1e-9, abs_tol=1e-9):
+          return None
+        mapped[pc.name] = d[0][1]
       want, wt = inner_at(mapped)
       if wt.infeasible != t.infeasible:
         return 'inner marks the point %r infeasible=%s, wrapper reports infeasible=%s' % (mapped, wt.infeasible, t.infeasible)
